@@ -25,7 +25,8 @@ from vlib.session import Session, unjson, chash
 PID = "C04"
 RULE = ("one evaluation = one turn of a generated history (5-30 turns) on the real orchestrator with a recording, fault-scripted "
         "store; non-trivial = the turn committed >= 1 approved delta, hit a scripted store failure, or ran with the kill switch off")
-EXC = {"KeyError": KeyError, "RuntimeError": RuntimeError, "OSError": OSError, "AssertionError": AssertionError, "ValueError": ValueError, "Custom": None}
+EXC = {"KeyError": KeyError, "RuntimeError": RuntimeError, "OSError": OSError, "AssertionError": AssertionError, "ValueError": ValueError, "Custom": None,
+       "TypeError": TypeError, "AttributeError": AttributeError, "ZeroDivisionError": ZeroDivisionError, "MemoryError": MemoryError}
 
 
 class CustomStoreError(Exception):
@@ -37,7 +38,9 @@ def gen_history(rng, long=False):
     bust = rng.choice(["on-apply", "none"])
     namespaces = rng.choice([["t2:semantic"], []])
     cfg = {"t4": {"snapshot_every_n_turns": n_every, "cache_bust_mode": bust, "cache": {"enabled": True, "namespaces": namespaces, "max_entries": 64, "ttl_sec": 600},
-                  "delta_norm_cap_l2": rng.choice([1.5, 100.0]), "novelty_cap_per_node": rng.choice([0.3, 1.0]), "churn_cap_edges": rng.choice([0, 2, 64, 64])}}
+                  "delta_norm_cap_l2": rng.choice([1.5, 100.0]), "novelty_cap_per_node": rng.choice([0.3, 1.0]), "churn_cap_edges": rng.choice([0, 2, 64, 64]),
+                  # the weight range bounds stored weights, not the approved steps (a step may exceed it)
+                  **rng.choice([{}, {}, {"weight_min": -0.2, "weight_max": 0.2}, {"weight_min": 0.0, "weight_max": 0.25}, {"weight_min": -1.0, "weight_max": 0.1}])}}
     if rng.random() < 0.3:
         cfg["t4"]["cooldowns"] = {"EditGraph": rng.choice([0, 2])}
     # several namespaces (outside the validator's one-name enumeration; set on the live config after validation): some that
@@ -141,11 +144,13 @@ def check_history(case, sess: Session):
             n_t4 = len(env.records("t4.jsonl"))
             n_ap = len(env.records("apply.jsonl"))
             approved = []
+            approved_vals = []
             real_t4 = core.t4_filter
 
             def t4wrap(*a, **k):
                 r = real_t4(*a, **k)
                 approved.append(list(r.approved_deltas))
+                approved_vals.append([float(d.delta) for d in r.approved_deltas])  # the step values at approval time
                 return r
 
             snap_calls = []
@@ -190,6 +195,7 @@ def check_history(case, sess: Session):
                 sess.inconclusive_because("t4_filter wrapper saw %d calls on a committed turn" % len(approved))
                 return
             appr = approved[0]
+            appr_vals = approved_vals[0]
             if new_t4 != 1 or new_ap != 1:
                 sess.violation("committed-turn:record-count", tcase, {"t4": new_t4, "apply": new_ap})
             # version discipline
@@ -214,6 +220,9 @@ def check_history(case, sess: Session):
                 else:
                     if calls[0]["gid"] != "g:surface" or calls[0]["ids"] != ids:
                         sess.violation("batch-call-not-exactly-the-approved-deltas-in-order", tcase, {"n_call": calls[0]["n"], "n_approved": len(appr), "keys": calls[0]["keys"][:4]})
+                    elif calls[0]["deltas"] != appr_vals:
+                        # same objects, other step values: the hand-off changed what the meta-filter approved
+                        sess.violation("batch-call-carries-other-step-values-than-approved", tcase, {"store_got": calls[0]["deltas"][:6], "approved": appr_vals[:6]})
                     keys = [f"{d.target_kind}:{d.target_id}:{d.attr}" for d in appr]  # the documented canonical key is this string
                     if keys != sorted(keys):
                         sess.violation("approved-not-in-canonical-order", tcase, keys[:6])
